@@ -110,7 +110,7 @@ def gen_cases(tier, rng):
             mask = dict(kind="pos", pos=[rng.randrange(-n, n) for _ in range(rng.randint(0, n + 1))])
         yield dict(n=n, keys=keys, kdts=kdts, kconts=kconts, kchunks=[_chunks(rng, n) for _ in kdts], vals=vals, vdt=vdt, vcont=vcont, vchunks=_chunks(rng, n),
                    mask=mask, history=history, sort=rng.random() < 0.8, small_threshold=rng.random() < 0.3, threads=rng.choice([1, 1, 3]),
-                   indexed=rng.random() < 0.5)
+                   indexed=rng.random() < 0.5, rowsel_all=rng.random() < 0.5)
 
 
 def build_key(col, kd, cont, chunks, name, index):
@@ -320,7 +320,8 @@ def evaluate(case, drv):
         if op == "ema_timed":
             return gb.ema(values, halflife="2s", times=times, mask=mk)
         if op in ("head", "tail"):
-            return getattr(gb, op)(values, 2, keep_input_index=True)
+            # n = 2, or n = number of rows: every row is then selected, in order (the positional take is the identity)
+            return getattr(gb, op)(values, max(case["n"], 1) if case.get("rowsel_all") else 2, keep_input_index=True)
         if op == "nth":
             return gb.nth(values, 1, keep_input_index=True)
         if op == "nearby":
